@@ -47,7 +47,7 @@
 #endif
 
 extern "C" const char *__asan_default_options()
-{ return "detect_leaks=0:abort_on_error=0:exitcode=66:allocator_may_return_null=1:malloc_limit_mb=2048:handle_abort=0"; }
+{ return "detect_leaks=0:abort_on_error=0:exitcode=66:allocator_may_return_null=1:max_allocation_size_mb=2048:handle_abort=0"; }
 extern "C" const char *__ubsan_default_options() { return "print_stacktrace=1"; }
 
 static std::map<std::string, std::vector<uint8_t> > g_assets;
@@ -127,6 +127,19 @@ static long rssMb()
     FILE *f = fopen("/proc/self/statm", "r"); if(!f) return 0;
     long a = 0, b = 0; if(fscanf(f, "%ld %ld", &a, &b) != 2) b = 0; fclose(f);
     return b * (sysconf(_SC_PAGESIZE) / 1024) / 1024;
+}
+// resident-set watchdog: SIGVTALRM every 50 ms of user CPU time (touching memory costs CPU); async-signal-safe calls only
+static void rssWatch(int)
+{
+    int fd = open("/proc/self/statm", O_RDONLY); if(fd < 0) return;
+    char b[128]; ssize_t n = read(fd, b, sizeof b - 1); close(fd); if(n <= 0) return; b[n] = 0;
+    const char *q = b; while(*q && *q != ' ') ++q;
+    long pages = atol(q);
+    if(pages * (sysconf(_SC_PAGESIZE) / 1024) / 1024 > g_rssCapMb)
+    {
+        static const char m[] = "\nHARNESS: resident set above the cap (out of memory)\n";
+        (void)!write(2, m, sizeof m - 1); _exit(74);
+    }
 }
 static double nowMs() { timespec ts; clock_gettime(CLOCK_MONOTONIC, &ts); return ts.tv_sec * 1e3 + ts.tv_nsec / 1e6; }
 static void arm(long cpuSec)
@@ -360,6 +373,8 @@ static void childMain(const std::vector<std::string> &lines, size_t from, size_t
     std::set_terminate(termHandler);
     signal(SIGPROF, SIG_DFL); signal(SIGALRM, SIG_DFL); signal(SIGXFSZ, SIG_IGN);
     rlimit fs; fs.rlim_cur = fs.rlim_max = 8 << 20; setrlimit(RLIMIT_FSIZE, &fs);
+    signal(SIGVTALRM, rssWatch);
+    { itimerval it; it.it_interval.tv_sec = 0; it.it_interval.tv_usec = 50000; it.it_value = it.it_interval; setitimer(ITIMER_VIRTUAL, &it, NULL); }
     if(chdir(g_scratch.c_str()) != 0) _exit(2);
     OPN2_MIDIPlayer *dev = NULL;
     for(size_t li = from; li < to; ++li)
@@ -387,15 +402,21 @@ static void childMain(const std::vector<std::string> &lines, size_t from, size_t
 }
 
 // ------------------------------------------------------------------ parent: classify how the child died
-static std::string lastComponent(std::string fn)
+static std::string lastComponent(const std::string &full)
 {
+    std::string fn; int depth = 0;
+    for(size_t i = 0; i < full.size(); ++i)          // drop template arguments
+    {
+        char ch = full[i];
+        if(ch == '<') ++depth; else if(ch == '>') { if(depth > 0) --depth; } else if(depth == 0) fn += ch;
+    }
     size_t par = fn.find('('); if(par != std::string::npos) fn = fn.substr(0, par);
-    size_t lt = fn.find('<'); if(lt != std::string::npos) fn = fn.substr(0, lt);
-    size_t cc = fn.rfind("::"); if(cc != std::string::npos) fn = fn.substr(cc + 2);
+    while(!fn.empty() && fn[fn.size() - 1] == ' ') fn.erase(fn.size() - 1);
     size_t sp = fn.rfind(' '); if(sp != std::string::npos) fn = fn.substr(sp + 1);
+    size_t cc = fn.rfind("::"); if(cc != std::string::npos) fn = fn.substr(cc + 2);
     return fn;
 }
-struct Crash { std::string cls, what, fn, file; long line; int sig; };
+struct Crash { std::string cls, what, fn, file, top; long line; int sig; };
 static bool has(const std::string &s, const char *n) { return s.find(n) != std::string::npos; }
 
 static Crash classify(int status, const std::string &err)
@@ -411,7 +432,7 @@ static Crash classify(int status, const std::string &err)
     if(c.what.size() > 160) c.what.resize(160);
     for(size_t i = 0; i < c.what.size(); ++i) if((unsigned char)c.what[i] < 0x20 || (unsigned char)c.what[i] >= 0x7f) c.what[i] = '?';
     if(c.sig == SIGPROF || c.sig == SIGALRM) c.cls = "hang";
-    else if(has(err, "allocation-size-too-big") || has(err, "out of memory") || has(err, "out-of-memory") || has(err, "exceeds maximum supported size") ||
+    else if(has(err, "HARNESS: resident set above the cap") || has(err, "allocation-size-too-big") || has(err, "out of memory") || has(err, "out-of-memory") || has(err, "exceeds maximum supported size") ||
             has(err, "bad_alloc") || has(err, "bad_array_new_length") || has(err, "calloc-overflow")) c.cls = "alloc";
     else if(has(err, "-buffer-overflow") || has(err, "container-overflow") || has(err, "out of bounds for type")) c.cls = "overflow";
     else if(has(err, "use-after-") || has(err, "double-free") || has(err, "attempting free") || has(err, "bad-free")) c.cls = "uaf";
@@ -423,21 +444,48 @@ static Crash classify(int status, const std::string &err)
     else if(c.sig == SIGKILL) c.cls = "killed";
     else if(has(err, "AddressSanitizer")) c.cls = "asan";
     else c.cls = "exit";
-    // top frame inside the library sources:  "#3 0x... in FUNC /path/src/file.cpp:123:4"
-    size_t p = 0;
+    // library frames of the FIRST stack of the report:  "#3 0x... in FUNC /path/src/file.cpp:123:4".
+    // site (fn, file, line) = the library frame directly below the exported opn2_* function (the call site inside the
+    // library that the defect class is keyed by); top = the innermost library frame.
+    size_t p = 0; bool haveSite = false; std::string prevFn, prevFile; long prevLine = 0; bool any = false;
     while((p = err.find("\n    #", p)) != std::string::npos)
     {
         size_t q = err.find('\n', p + 1); std::string ln = err.substr(p + 1, (q == std::string::npos ? err.size() : q) - p - 1);
         p = (q == std::string::npos ? err.size() : q);
+        if(ln.compare(0, 7, "    #0 ") == 0 && any) break;                 // second stack (allocation / free site)
         size_t in = ln.find(" in "); if(in == std::string::npos) continue;
         size_t sl = ln.find(" /", in + 4); if(sl == std::string::npos) continue;
-        std::string path = ln.substr(sl + 1), fn = ln.substr(in + 4, sl - in - 4);
-        if(!has(path, "/src/") || has(path, "/harness/") || has(path, "compiler-rt") || has(path, "/include/c++")) continue;
+        std::string path = ln.substr(sl + 1), fn = lastComponent(ln.substr(in + 4, sl - in - 4));
+        if(has(path, "/harness/")) break;
+        if(!has(path, "/src/") || has(path, "compiler-rt") || has(path, "/include/c++")) continue;
         size_t col = path.find(':'); std::string file = path.substr(0, col);
-        c.line = col == std::string::npos ? 0 : atol(path.c_str() + col + 1);
-        size_t bs = file.rfind('/'); c.file = bs == std::string::npos ? file : file.substr(bs + 1);
-        c.fn = lastComponent(fn);
-        break;
+        long line = col == std::string::npos ? 0 : atol(path.c_str() + col + 1);
+        size_t bs = file.rfind('/'); file = bs == std::string::npos ? file : file.substr(bs + 1);
+        if(!any) { char b[32]; snprintf(b, sizeof b, ":%ld", line); c.top = fn + " " + file + b; }
+        any = true;
+        if(fn.compare(0, 5, "opn2_") == 0)
+        {
+            if(prevFn.empty()) { c.fn = fn; c.file = file; c.line = line; } else { c.fn = prevFn; c.file = prevFile; c.line = prevLine; }
+            haveSite = true; break;
+        }
+        prevFn = fn; prevFile = file; prevLine = line;
+    }
+    if(!haveSite && !prevFn.empty()) { c.fn = prevFn; c.file = prevFile; c.line = prevLine; }
+    if(c.fn.empty() && has(err, ": Assertion "))        // glibc:  prog: /path/file.cpp:658: void OPN2::reset(...): Assertion `false' failed.
+    {
+        size_t a = err.find(": Assertion "); size_t b = err.rfind('\n', a); b = (b == std::string::npos) ? 0 : b + 1;
+        std::string ln = err.substr(b, a - b);
+        size_t sl = ln.find(" /");
+        if(sl != std::string::npos)
+        {
+            std::string rest = ln.substr(sl + 1); size_t c1 = rest.find(':'), c2 = (c1 == std::string::npos) ? c1 : rest.find(": ", c1 + 1);
+            if(c1 != std::string::npos && c2 != std::string::npos)
+            {
+                std::string file = rest.substr(0, c1); size_t bs = file.rfind('/'); c.file = bs == std::string::npos ? file : file.substr(bs + 1);
+                c.line = atol(rest.c_str() + c1 + 1); c.fn = lastComponent(rest.substr(c2 + 2));
+                char nb[32]; snprintf(nb, sizeof nb, ":%ld", c.line); c.top = c.fn + " " + c.file + nb;
+            }
+        }
     }
     if(c.fn.empty() && has(err, "runtime error:"))      // UBSan without a usable stack: take the location of the report
     {
@@ -515,9 +563,10 @@ int main(int argc, char **argv)
             std::string err = slurp(errPath, 256u << 10);
             if(WIFEXITED(status) && WEXITSTATUS(status) == 2) { fprintf(stderr, "INFRA: child reported an infrastructure error: %s\n", err.substr(0, 600).c_str()); infra = 1; break; }
             Crash c = classify(status, err);
+            if(getenv("VERIF_API_STDERR")) { FILE *ef = fopen(getenv("VERIF_API_STDERR"), "a"); if(ef) { fprintf(ef, "==== history at script line %zu, call %zu\n%s\n", li + 1, done, err.substr(0, 6000).c_str()); fclose(ef); } }
             JW w; w.first = false;
             w.key("crash"); w.begin_obj(); w.ks("cls", c.cls); w.kv("sig", c.sig); w.kv("exit", WIFEXITED(status) ? WEXITSTATUS(status) : -1);
-            w.ks("what", c.what); w.ks("fn", c.fn); w.ks("file", c.file); w.kv("line", c.line); w.end_obj();
+            w.ks("what", c.what); w.ks("fn", c.fn); w.ks("file", c.file); w.kv("line", c.line); w.ks("top", c.top); w.end_obj();
             if(li + done < to) { std::string x = lines[li + done]; x.pop_back(); recs.push_back(x + w.s + "}"); ++done; }
             else if(!recs.empty()) { recs.back().pop_back(); recs.back() += w.s + ",\"atclose\":1}"; }   // died in the implicit opn2_close that ends every history
         }
